@@ -1,4 +1,4 @@
-package h_prov
+package hutil
 
 import (
 	"os"
@@ -11,7 +11,7 @@ import (
 // and so does every other operation on a closed file, as on an *os.File.
 type strictFs struct{ afero.Fs }
 
-func newStrictFs() afero.Fs { return strictFs{afero.NewMemMapFs()} }
+func NewStrictFs() afero.Fs { return strictFs{afero.NewMemMapFs()} }
 
 func (s strictFs) Open(name string) (afero.File, error) {
 	f, err := s.Fs.Open(name)
